@@ -85,6 +85,7 @@ def apply_contract(interp, c, func, args, kwargs):
     old = None
     if c.old is not None:
         old = _call_pred(interp, c.old, env)
+        env = dict(env, old=old)      # `when` conditions of exceptional outcomes may mention the pre-state
     if c.event is not None:
         st.emit(c.event, dict(bound))
     # exceptional outcomes
@@ -244,6 +245,7 @@ def _run_path(interp, reg, c, func, rep):
     old = None
     if c.old is not None:
         old = _call_pred(interp, c.old, env)
+        env = dict(env, old=old)      # `when` conditions of exceptional outcomes may mention the pre-state
     # positional order of the real function
     code = func.__code__
     names = list(code.co_varnames[:code.co_argcount + code.co_kwonlyargcount])
